@@ -13,6 +13,7 @@ import AvroModel.Drv.Schema
 open Avro Avro.Sexp Avro.Drv
 
 def dispatch (prop : String) (op : String) (args : List Sexp) : Verdict :=
+  if op == "e2e-big" then bigVerdict args else
   match prop with
   | "C17" => c17 op args
   | "C09" => c09 op args
